@@ -744,7 +744,7 @@ class FetchAtt:
                 "latin-1"
             )
             if not self.ext_data:
-                res = b"(" + b"".join(sub_parts) + b'"' + subtype + b'")'
+                res = b"(" + b"".join(sub_parts) + b' "' + subtype + b'")'
                 return res
 
             # Get the extension data and add it to our response.
